@@ -191,6 +191,33 @@ Proof.
   - intros x Hx. apply parse_type_item_ok. eapply forallb_In; eauto.
 Qed.
 
+Lemma parse_itype_item_ok parent i : wf_itype i = true ->
+  parse_type_item parent (j_itype i) = Ok (map (type_at (tree_fqn parent)) (types_of [i])).
+Proof.
+  intros H. destruct i as [t|c]; cbn [j_itype types_of flat_map app map].
+  - now apply parse_type_item_ok.
+  - cbn [wf_itype] in H. apply andb_true_iff in H as [H1 H2]. apply negb_true_iff in H1, H2.
+    unfold parse_type_item.
+    change (get_class_value (JObj _)) with (@Ok json (JStr c)). cbn [bind].
+    change (jstr_is (JStr c) (JsonAst.k "enum")) with (str_eqb c (k "enum")). rewrite H1.
+    change (jstr_is (JStr c) (JsonAst.k "subint")) with (str_eqb c (k "subint")). rewrite H2. reflexivity.
+Qed.
+
+Lemma types_of_flat ts : types_of ts = flat_map (fun i => types_of [i]) ts.
+Proof. unfold types_of. induction ts as [|i ts IH]; cbn [flat_map]; [reflexivity|]. rewrite app_nil_r. now f_equal. Qed.
+
+Lemma parse_itypes_ok parent ts : forallb wf_itype ts = true ->
+  parse_types (JObj [jcls "types"; (k "elements", JArr (map j_itype ts))]) parent = Ok (map (type_at (tree_fqn parent)) (types_of ts)).
+Proof.
+  intros H. unfold parse_types. cbn [helper as_obj bind].
+  change (assert_class _ (JsonAst.k "types")) with (@Ok unit tt). cbn [bind].
+  change (get_list _ _) with (@Ok (list json) (map j_itype ts)). cbn [bind].
+  rewrite (concatM_map _ _ (fun i => map (type_at (tree_fqn parent)) (types_of [i]))).
+  - f_equal. rewrite (types_of_flat ts). induction ts as [|i ts IH]; cbn [flat_map]; [reflexivity|].
+    rewrite map_app. f_equal. apply IH. cbn [forallb] in H. now apply andb_true_iff in H as [_ H].
+  - intros x Hx. apply parse_itype_item_ok. eapply forallb_In; eauto.
+Qed.
+
 Lemma type_enums_at p ts : type_enums (map (type_at p) ts) = enums_of_types p ts.
 Proof. unfold type_enums, enums_of_types. induction ts as [|[n fs|n lo hi] ts IH]; cbn; congruence. Qed.
 Lemma type_subints_at p ts : type_subints (map (type_at p) ts) = subints_of_types p ts.
@@ -320,7 +347,7 @@ Proof.
   now rewrite H1, H2, H3, H4, H5, H6, H7, H8, H9, H10.
 Qed.
 
-Lemma pe_interface n ts es : ids_ok n = true -> forallb wf_type ts = true -> forallb wf_event es = true ->
+Lemma pe_interface n ts es : ids_ok n = true -> forallb wf_itype ts = true -> forallb wf_event es = true ->
   parse_element_with rec parent fc (j_decl ex (DItf n ts es)) = Ok (fc_app fc (declared path (DItf n ts es))).
 Proof.
   intros Hn Ht He. cbn [j_decl]. destruct ex; cbn [app parse_element_with].
@@ -337,9 +364,9 @@ Proof.
   all: change (get_dict _ (JsonAst.k "name")) with (@Ok json (j_scope n)); cbn [bind].
   all: rewrite parse_scope_name_ok by assumption; cbn [bind].
   all: match goal with |- context [get_dict ?o (JsonAst.k "types")] =>
-         match o with context [map j_type ?q] =>
-         change (get_dict o (JsonAst.k "types")) with (@Ok json (JObj [jcls "types"; (k "elements", JArr (map j_type q))])) end end; cbn [bind].
-  all: rewrite parse_types_ok by assumption; cbn [bind].
+         match o with context [map j_itype ?q] =>
+         change (get_dict o (JsonAst.k "types")) with (@Ok json (JObj [jcls "types"; (k "elements", JArr (map j_itype q))])) end end; cbn [bind].
+  all: rewrite parse_itypes_ok by assumption; cbn [bind].
   all: match goal with |- context [get_dict ?o (JsonAst.k "events")] =>
          match o with context [map (j_event ?e) ?q] =>
            change (get_dict o (JsonAst.k "events")) with (@Ok json (JObj [jcls "events"; (k "elements", JArr (map (j_event e) q))])) end end; cbn [bind].
